@@ -117,6 +117,43 @@ class VirtualMapping:
 abc.Mapping.register(VirtualMapping)
 
 
+class PlainBase:
+    """No category; its subclasses below belong to one."""
+
+    def __repr__(self):
+        return "<PlainBase>"
+
+
+class BaseMap(PlainBase, abc.Mapping):
+    def __init__(self):
+        self._d = {"bm": 1}
+
+    def __getitem__(self, k):
+        return self._d[k]
+
+    def __iter__(self):
+        return iter(self._d)
+
+    def __len__(self):
+        return len(self._d)
+
+
+class BaseSeq(PlainBase, abc.Sequence):
+    def __getitem__(self, i):
+        return [1, 2][i]
+
+    def __len__(self):
+        return 2
+
+
+class DictChild(DictSub):
+    """Same category as its base."""
+
+
+class MapThenSeq(MyMapping, abc.Sequence):
+    """A Mapping subclass that is also a Sequence (first match differs by registry order)."""
+
+
 def _scope_a():
     class Dup(dict):  # a mapping
         pass
@@ -175,6 +212,8 @@ def make_pool():
         ("mappingproxy", lambda: type.__dict__ and __import__("types").MappingProxyType({"p": 1})),
         ("counter", lambda: collections.Counter("aab")), ("chainmap", lambda: collections.ChainMap({"c": 1})),
         ("namedtuple", lambda: collections.namedtuple("NT", "x y")(1, 2)),
+        ("plainbase", lambda: PlainBase()), ("basemap", lambda: BaseMap()), ("baseseq", lambda: BaseSeq()),
+        ("dictchild", lambda: DictChild(a=1)), ("mapthenseq", lambda: MapThenSeq({"ms": 1})),
     ]
     if have_numpy():
         import numpy as np
